@@ -49,11 +49,28 @@ def functions():
     fs.append(helper.make_function("local", "NoDef", ["nx"], ["no"], [m1, m2], [helper.make_opsetid("", OPSET)], attributes=["beta"]))
     b1 = helper.make_node("Binarizer", ["bx"], ["bo"], name="bin_n", domain="ai.onnx.ml", threshold=0.5)
     fs.append(helper.make_function("local", "Bin", ["bx"], ["bo"], [b1], [helper.make_opsetid("", OPSET), helper.make_opsetid("ai.onnx.ml", 3)]))
-    return {"Scale": fs[0], "Twice": fs[1], "NoDef": fs[2], "Bin": fs[3]}
+    # Fwd(gx; gamma=4.0) = Scale(gx, alpha=@gamma): an attribute parameter forwarded under another name
+    fref = onnx.AttributeProto(name="alpha", type=onnx.AttributeProto.FLOAT, ref_attr_name="gamma")
+    g1 = helper.make_node("Scale", ["gx"], ["go"], name="fwd_call", domain="local")
+    g1.attribute.add().CopyFrom(fref)
+    fs.append(helper.make_function("local", "Fwd", ["gx"], ["go"], [g1], [helper.make_opsetid("", OPSET), helper.make_opsetid("local", 1)], attributes=[],
+                                   attribute_protos=[helper.make_attribute("gamma", 4.0)]))
+    # CondFn(cx, cc) = If(cc) {Scale(cx, alpha=0.5)} else {cx + cw}: a call and an initializer reachable only
+    # through a control-flow body that lives inside a function
+    tb = onnx.GraphProto(name="cond_then")
+    tb.node.append(helper.make_node("Scale", ["cx"], ["cond_then_o"], name="cond_then_n", domain="local", alpha=0.5))
+    tb.output.append(_vi("cond_then_o", TP.FLOAT, None))
+    eb = onnx.GraphProto(name="cond_else")
+    eb.initializer.append(_const_tensor("cond_w", [1.0, 2.0]))
+    eb.node.append(helper.make_node("Add", ["cx", "cond_w"], ["cond_else_o"], name="cond_else_n"))
+    eb.output.append(_vi("cond_else_o", TP.FLOAT, None))
+    ci = helper.make_node("If", ["cc"], ["co"], name="cond_if", then_branch=tb, else_branch=eb)
+    fs.append(helper.make_function("local", "CondFn", ["cx", "cc"], ["co"], [ci], [helper.make_opsetid("", OPSET), helper.make_opsetid("local", 1)]))
+    return {"Scale": fs[0], "Twice": fs[1], "NoDef": fs[2], "Bin": fs[3], "Fwd": fs[4], "CondFn": fs[5]}
 
 
 FORMS_0IN = [("ConstT",), ("ConstF",), ("ConstFs",), ("ConstI",)]
-FORMS_1IN = ["Neg", "Relu", "Identity", "Abs", "CastF", "Clip", "Dropout1", "Dropout2", "Split2", "CallScale", "CallScaleDefault", "CallTwice", "CallNoDef", "CallBin"]
+FORMS_1IN = ["Neg", "Relu", "Identity", "Abs", "CastF", "Clip", "Dropout1", "Dropout2", "Split2", "CallScale", "CallScaleDefault", "CallTwice", "CallNoDef", "CallBin", "CallFwd", "CallFwdDefault", "CallCond"]
 FORMS_2IN_COMM = ["Add", "Mul"]
 FORMS_2IN = ["Sub"]
 IF_FORMS = [("id", "neg"), ("add", "id"), ("idid", "const"), ("init", "id"), ("call", "id"), ("nested", "id")]
@@ -78,6 +95,8 @@ def out_classes(form, cls):
     if kind in ("Add", "Mul", "Sub"):
         a, b = cls[form[1]], cls[form[2]]
         return [a if rank[a] >= rank[b] else b]
+    if kind == "CallCond":
+        return [cls[form[1]] if cls[form[1]] == "v2" else None]  # both branches of CondFn must agree in rank
     if kind == "If":
         _, tt, et, cap = form
         c = cls[cap]
@@ -193,6 +212,12 @@ def make_node(form, idx):
         return [helper.make_node("NoDef", [form[1]], [o], name=nm, domain="local", beta=-1.0)], [o], [], {"NoDef"}
     if kind == "CallBin":
         return [helper.make_node("Bin", [form[1]], [o], name=nm, domain="local")], [o], [], {"Bin"}
+    if kind == "CallFwd":
+        return [helper.make_node("Fwd", [form[1]], [o], name=nm, domain="local", gamma=0.25)], [o], [], {"Fwd", "Scale"}
+    if kind == "CallFwdDefault":
+        return [helper.make_node("Fwd", [form[1]], [o], name=nm, domain="local")], [o], [], {"Fwd", "Scale"}
+    if kind == "CallCond":
+        return [helper.make_node("CondFn", [form[1], "c"], [o], name=nm, domain="local")], [o], [], {"CondFn", "Scale"}
     if kind == "ClipMin":
         return [helper.make_node("Clip", [form[1], form[2]], [o], name=nm)], [o], [], used
     if kind == "ClipMax":
@@ -244,7 +269,7 @@ def _make_model(forms, outputs, extra_unused_function=False):
             e.key, e.value = "origin", nd.name
     if len(g.node) > 1:
         g.doc_string = "main graph doc"
-    m = helper.make_model(g, opset_imports=opsets, ir_version=10, functions=[fns[k] for k in ("Scale", "Twice", "NoDef", "Bin") if k in used])
+    m = helper.make_model(g, opset_imports=opsets, ir_version=10, functions=[fns[k] for k in ("Scale", "Twice", "NoDef", "Bin", "Fwd", "CondFn") if k in used])
     # the checker wants a shape on main-graph outputs: take the rank from one evaluation, dims symbolic
     from mc import evalproto
 
@@ -305,6 +330,18 @@ def gen_dup_family():
         for f in second:
             for g in second:
                 yield ((c, f, g), ("v1", "v2"))
+
+
+def gen_order_family():
+    """[f(..), u(v0), f(..)] with outputs (v1, v2): a duplicate whose first occurrence has a consumer placed
+    between the two occurrences and only the later occurrence is a graph output."""
+    firsts = [("Add", "x", "x"), ("Add", "x", "w1"), ("Mul", "x", "w3"), ("Neg", "x"), ("Sub", "x", "w1"), ("CallScale", "x"), ("ConstFs",)]
+    for f in firsts:
+        for u in ("Relu", "Neg", "Identity"):
+            for outs in (("v1", "v2"), ("v2", "v1"), ("v1", "v0", "v2")):
+                yield ((f, (u, "v0"), f), outs)
+        for b in (("Add", "v0", "x"), ("Sub", "w1", "v0")):
+            yield ((f, b, f), ("v1", "v2"))
 
 
 def special_models():
